@@ -438,7 +438,11 @@ def _ext_branches(f):
             while isinstance(t, ast.UnaryOp) and isinstance(t.op, ast.Not):
                 t, neg = t.operand, not neg
             if isinstance(t, ast.Call) and norm(t.func) == 'isinstance' and norm(t.args[1]) == 'int':
-                return (st.orelse, st.body) if neg else (st.body, st.orelse)
+                body, orelse = st.body, st.orelse
+                if not orelse and always_exits(body):
+                    # guard-clause form: `if c: ...; return x` followed by the other case
+                    orelse = f.body[f.body.index(st) + 1:]
+                return (orelse, body) if neg else (body, orelse)
     raise AnalysisError(f"helpers.{f.name}: int/type case split not found")
 
 
@@ -693,6 +697,8 @@ MUTANTS = [
 ]
 
 EQUIV = [
+    _m('zext-guard-clause', "  if isinstance( new_width, int ):\n    assert new_width >= value.nbits\n    return Bits( new_width, value.uint() )\n  else:\n    assert issubclass( new_width, Bits )\n    return new_width( value.uint() )\n",
+       "  if not isinstance( new_width, int ):\n    assert issubclass( new_width, Bits )\n    return new_width( value.uint() )\n\n  assert new_width >= value.nbits\n  return Bits( new_width, value.uint() )\n", file=HELPERS),
     _m('clog2-helper-local', "  return ( int(N) - 1 ).bit_length()", "  max_index = int(N) - 1\n  return max_index.bit_length()", file=HELPERS),
     _m('trunc-branches-flipped', "def trunc( value, new_width ):\n  if isinstance( new_width, int ):\n    assert new_width <= value.nbits\n    return Bits( new_width, value.uint(), trunc_int=True )\n  else:\n    assert issubclass( new_width, Bits )\n    return new_width( value.uint(), trunc_int=True )", "def trunc( value, new_width ):\n  if not isinstance( new_width, int ):\n    assert issubclass( new_width, Bits )\n    return new_width( value.uint(), trunc_int=True )\n  else:\n    assert new_width <= value.nbits\n    return Bits( new_width, value.uint(), trunc_int=True )", file=HELPERS),
     _m('bounds-as-conjunction', "        assert 0 <= start < stop <= self._nbits", "        assert 0 <= start and start < stop and stop <= self._nbits", count=2),
